@@ -26,6 +26,99 @@ fn run_range(tok: &[&str]) -> String {
     }
 }
 
+fn dur(tok: &str) -> std::time::Duration {
+    // <secs>:<nanos>
+    let (s, n) = tok.split_once(':').unwrap();
+    std::time::Duration::new(s.parse().unwrap(), n.parse().unwrap())
+}
+
+/// retry <min s:ns> <max s:ns> <ops f|d|r…>  -> delays in ns
+fn run_retry(tok: &[&str]) -> String {
+    let mut out: Vec<String> = Vec::new();
+    let res = std::panic::catch_unwind(std::panic::AssertUnwindSafe(|| {
+        let mut strategy = rodbus::doubling_retry_strategy(dur(tok[1]), dur(tok[2]));
+        for op in tok[3].chars() {
+            match op {
+                'f' => out.push(strategy.after_failed_connect().as_nanos().to_string()),
+                'd' => out.push(strategy.after_disconnect().as_nanos().to_string()),
+                'r' => strategy.reset(),
+                _ => {}
+            }
+        }
+    }));
+    if res.is_err() {
+        out.push("panic".into());
+    }
+    if out.is_empty() {
+        "-".into()
+    } else {
+        out.join(",")
+    }
+}
+
+/// trk <max> <ops a | r<id> ,…> -> ids after every op
+fn run_trk(tok: &[&str]) -> String {
+    let mut t = rodbus::verif::VerifTracker::new(tok[1].parse().unwrap());
+    let mut out = Vec::new();
+    if tok[2] != "-" {
+        for op in tok[2].split(',') {
+            if op == "a" {
+                let id = t.add();
+                out.push(format!("+{id}"));
+            } else {
+                t.remove(op[1..].parse().unwrap());
+            }
+            out.push(format!(
+                "[{}]",
+                t.ids().iter().map(|x| x.to_string()).collect::<Vec<_>>().join(" ")
+            ));
+        }
+    }
+    if out.is_empty() {
+        "-".into()
+    } else {
+        out.join("")
+    }
+}
+
+/// flt <hex of the utf-8 string> -> parse result of WildcardIPv4
+fn run_flt(tok: &[&str]) -> String {
+    let s = String::from_utf8(unhex(tok[1])).unwrap();
+    match s.parse::<WildcardIPv4>() {
+        Err(_) => "err".into(),
+        Ok(w) => {
+            // the public type derives Debug, which prints the four fields
+            format!("ok {:?}", w)
+                .replace("WildcardIPv4 ", "")
+                .replace("Some(", "")
+                .replace(")", "")
+                .replace("None", "*")
+                .replace(' ', "")
+        }
+    }
+}
+
+/// fltm <filter> <addr>: filter = any | x<ip> | s<ip>/<ip>… | w<hex wildcard string>
+fn run_fltm(tok: &[&str]) -> String {
+    let addr: std::net::IpAddr = tok[2].parse().unwrap();
+    let f = match &tok[1][0..1] {
+        "a" => AddressFilter::Any,
+        "x" => AddressFilter::Exact(tok[1][1..].parse().unwrap()),
+        "s" => AddressFilter::AnyOf(
+            tok[1][1..]
+                .split('/')
+                .filter(|x| !x.is_empty())
+                .map(|x| x.parse().unwrap())
+                .collect(),
+        ),
+        _ => match String::from_utf8(unhex(&tok[1][1..])).unwrap().parse::<WildcardIPv4>() {
+            Ok(w) => AddressFilter::WildcardIpv4(w),
+            Err(_) => return "badfilter".into(),
+        },
+    };
+    format!("{}", rodbus::verif::filter_matches(&f, addr))
+}
+
 fn run_crc(tok: &[&str]) -> String {
     format!("{}", rodbus::verif::rtu_crc(&unhex(tok[1])))
 }
@@ -207,6 +300,10 @@ async fn run_case(line: &str) -> String {
     match tok[0] {
         "range" => run_range(&tok),
         "crc" => run_crc(&tok),
+        "retry" => run_retry(&tok),
+        "trk" => run_trk(&tok),
+        "flt" => run_flt(&tok),
+        "fltm" => run_fltm(&tok),
         "srv" => run_srv(&tok).await,
         "rdr" => run_rdr(&tok).await,
         "cl" => client::run_cl(&tok).await,
